@@ -1670,6 +1670,18 @@ class Block(_IRNode, IRWithUses, IRWithName):
         """Check if a name matches the default block naming pattern (bb followed by digits)."""
         return name.startswith("bb") and name[2:].isdigit() and name[2:] != ""
 
+    @classmethod
+    def extract_valid_name(cls, name: str | None) -> str | None:
+        """
+        Same as for values, except that a default block name (`bb` followed by digits)
+        is not a hint: the printer gives these names to blocks without a hint, so
+        keeping one as a hint could print two blocks with the same name.
+        """
+        name = super().extract_valid_name(name)
+        if name is not None and cls.is_default_block_name(name):
+            return None
+        return name
+
     def __init__(
         self,
         ops: Iterable[Operation] = (),
